@@ -28,11 +28,17 @@ _real_time = time.time
 _real_perf = time.perf_counter
 
 
+_BASE = [None]
+
+
 def scratch_base():
-    base = SHM or os.environ.get("TMPDIR") or "/var/tmp"
-    d = os.path.join(base, f"asimap-verif-{os.getpid():08d}")
-    os.makedirs(d, exist_ok=True)
-    return d
+    """One scratch directory per top-level process; forked children inherit it (their
+    run directories live inside it and go away with it)."""
+    if _BASE[0] is None:
+        base = SHM or os.environ.get("TMPDIR") or "/var/tmp"
+        _BASE[0] = os.path.join(base, f"asimap-verif-{os.getpid():08d}")
+    os.makedirs(_BASE[0], exist_ok=True)
+    return _BASE[0]
 
 
 # ---------------------------------------------------------------------------
@@ -118,6 +124,7 @@ class Pool:
         self.opts = dict(opts or {})
         self.opts["wall"] = wall
         self.active = {}  # rfd -> (pid, job, buf, t0)
+        scratch_base()  # fixed before the first fork
 
     def _spawn(self, job):
         rfd, wfd = os.pipe()
